@@ -127,7 +127,7 @@ func (t *CallableType) CallableWith(args []px.Value, block px.Lambda) bool {
 		if block.PType() == nil {
 			return false
 		}
-		if !isAssignable(block.PType(), cb) {
+		if !isAssignable(cb, block.PType()) {
 			return false
 		}
 	} else if t.blockType != nil && !isAssignable(t.blockType, undefTypeDefault) {
